@@ -1,6 +1,7 @@
 #!/bin/bash
 # usage: validate_tree.sh [repo-dir [name-regex]]   (default /repo, all changes)
-# Seeded changes for the TREE POINTER MODE units (README.md, "Tree pointer mode" rows of the validation table): every
+# Seeded changes for the TREE POINTER MODE units, the linkedhashmap encoder and the wrappers composed with the pointer code
+# (README.md, "Tree pointer mode" rows of the validation table): every
 # change is applied to a scratch export of repo-dir (git archive HEAD; deleted afterwards), run.sh is run on it, and the
 # failed obligations / the refusal are printed.  Never touches repo-dir.
 here=$(cd "$(dirname "$0")" && pwd)
@@ -8,10 +9,11 @@ repo=${1:-/repo}
 scratch=$(mktemp -d /tmp/srcgen_treeval.XXXXXX)
 trap 'rm -rf "$scratch"' EXIT
 git -C "$repo" archive HEAD | tar -x -C "$scratch" || exit 3
-exec python3 - "$here" "$repo" "$scratch" "${2:-}" <<'PY'
+python3 - "$here" "$repo" "$scratch" "${2:-}" <<'PY'
 import sys, subprocess, json, shutil, re
 here, repo, scratch, only = sys.argv[1:5]
 RB, RBI, AVL = 'trees/redblacktree/redblacktree.go', 'trees/redblacktree/iterator.go', 'trees/avltree/avltree.go'
+LHJ = 'maps/linkedhashmap/serialization.go'
 LOOKUP_TAIL = "\t\tcase compare < 0:\n\t\t\tnode = node.Left\n\t\tcase compare > 0:\n\t\t\tnode = node.Right\n\t\t}\n\t}\n\treturn nil\n}"
 muts = [
  ("r1 lookup: < and > swapped", RB, [(LOOKUP_TAIL, LOOKUP_TAIL.replace("compare < 0", "compare @ 0").replace("compare > 0", "compare < 0").replace("compare @ 0", "compare > 0"))]),
@@ -81,6 +83,23 @@ muts = [
  ("x7 refused: doublerot stores the rotated child into a computed slot", AVL, [("\ts.Children[a] = rotate(-c, s.Children[a])", "\ts.Children[a^1] = rotate(-c, s.Children[a])")]),
  ("x5 refused: Put passes the address of a local variable", AVL, [("\ttree.put(key, value, nil, &tree.Root)", "\troot := tree.Root\n\ttree.put(key, value, nil, &root)\n\ttree.Root = root")]),
  ("x6 refused: int8 result compared after a division by a variable", AVL, [("func rotate[K comparable, V any](c int8, s *Node[K, V]) *Node[K, V] {\n\ta := (c + 1) / 2", "func rotate[K comparable, V any](c int8, s *Node[K, V]) *Node[K, V] {\n\ta := (c + 1) / (c * c + 1)")]),
+ ("k3 AVL Keys stores the values", AVL, [("\t\tkeys[i] = it.Key()", "\t\tkeys[i] = it.Value()")]),
+ ("k4 AVL Values starts at index 1", AVL, [("\tfor i := 0; it.Next(); i++ {\n\t\tvalues[i] = it.Value()", "\tfor i := 1; it.Next(); i++ {\n\t\tvalues[i] = it.Value()")]),
+ ("k5 harmless: AVL Keys with renamed locals", AVL, [("\tkeys := make([]K, tree.size)\n\tit := tree.Iterator()\n\tfor i := 0; it.Next(); i++ {\n\t\tkeys[i] = it.Key()\n\t}\n\treturn keys", "\tks := make([]K, tree.size)\n\titer := tree.Iterator()\n\tfor j := 0; iter.Next(); j++ {\n\t\tks[j] = iter.Key()\n\t}\n\treturn ks")]),
+ ("j1 LinkedHashMap ToJSON: comma after the last entry only", LHJ, [("\t\tif index != lastIndex {\n", "\t\tif index == lastIndex {\n")]),
+ ("j2 LinkedHashMap ToJSON: no closing brace", LHJ, [("\tbuf.WriteRune('}')\n\n\treturn buf.Bytes(), nil", "\treturn buf.Bytes(), nil")]),
+ ("j3 LinkedHashMap ToJSON: keeps the entry's closing brace", LHJ, [("\t\tbuf.Write(pair[1 : len(pair)-1])", "\t\tbuf.Write(pair[1:len(pair)])")]),
+ ("j4 LinkedHashMap ToJSON: the entry's value is its key", LHJ, [("map[K]V{it.Key(): it.Value()}", "map[K]V{it.Key(): it.Key()}")]),
+ ("j5 LinkedHashMap MarshalJSON does not delegate", LHJ, [("func (m *Map[K, V]) MarshalJSON() ([]byte, error) {\n\treturn m.ToJSON()", "func (m *Map[K, V]) MarshalJSON() ([]byte, error) {\n\treturn nil, nil")]),
+ ("j6 LinkedHashMap ToJSON ignores the marshal error", LHJ, [("\t\tif err != nil {\n\t\t\treturn nil, err\n\t\t}\n\t\tbuf.Write(pair", "\t\tbuf.Write(pair")]),
+ ("j7 LinkedHashMap ToJSON: lastIndex := m.Size()", LHJ, [("\tlastIndex := m.Size() - 1\n", "\tlastIndex := m.Size()\n")]),
+ ("j8 harmless: LinkedHashMap ToJSON with renamed locals", LHJ, [("\t\tpair, err := json.Marshal(map[K]V{it.Key(): it.Value()})\n\t\tif err != nil {\n\t\t\treturn nil, err\n\t\t}\n\t\tbuf.Write(pair[1 : len(pair)-1])", "\t\tenc, e := json.Marshal(map[K]V{it.Key(): it.Value()})\n\t\tif e != nil {\n\t\t\treturn nil, e\n\t\t}\n\t\tbuf.Write(enc[1 : len(enc)-1])")]),
+ ("x8 refused: LinkedHashMap ToJSON writes a non-ASCII rune", LHJ, [("\tbuf.WriteRune('{')\n", "\tbuf.WriteRune('\u00e9')\n")]),
+ ("x9 refused: the slice given to bytes.NewBuffer is used again", LHJ, [("\tbuf := bytes.NewBuffer(b)\n", "\tbuf := bytes.NewBuffer(b)\n\t_ = len(b)\n")]),
+ ("t1 treemap.Put stores the key as the value", 'maps/treemap/treemap.go', [("\tm.tree.Put(key, value)\n", "\tm.tree.Put(key, key)\n")]),
+ ("t2 treemap.Min reads the rightmost node", 'maps/treemap/treemap.go', [("\tif node := m.tree.Left(); node != nil {", "\tif node := m.tree.Right(); node != nil {")]),
+ ("t3 treeset.Contains answers true on the first element found", 'sets/treeset/treeset.go', [("\t\tif _, contains := set.tree.Get(item); !contains {\n\t\t\treturn false", "\t\tif _, contains := set.tree.Get(item); contains {\n\t\t\treturn true")]),
+ ("t4 treebidimap.Put keeps the old inverse entry", 'maps/treebidimap/treebidimap.go', [("\tif v, ok := m.forwardMap.Get(key); ok {\n\t\tm.inverseMap.Remove(v)\n\t}\n\tif k, ok", "\tif k, ok")]),
  ("x1 refused: range loop in Left", RB, [("\tvar parent *Node[K, V]\n\tcurrent := tree.Root\n\tfor current != nil {\n\t\tparent = current\n\t\tcurrent = current.Left\n",
                                           "\tvar parent *Node[K, V]\n\tcurrent := tree.Root\n\tfor range []int{1} {\n\t}\n\tfor current != nil {\n\t\tparent = current\n\t\tcurrent = current.Left\n")]),
  ("x2 refused: continue in lookup", RB, [(LOOKUP_TAIL, LOOKUP_TAIL.replace("\t\t\tnode = node.Right\n\t\t}\n", "\t\t\tnode = node.Right\n\t\t}\n\t\tcontinue\n"))]),
@@ -89,7 +108,7 @@ muts = [
  ("x4 a field added to Node", RB, [("\tParent *Node[K, V]\n}", "\tParent *Node[K, V]\n\theight int\n}")]),
 ]
 import os, re
-only = os.environ.get('VALIDATE_ONLY')   # regular expression on the names, e.g. VALIDATE_ONLY='^w'
+only = os.environ.get('VALIDATE_ONLY') or only   # (or the second argument) regular expression on the names, e.g. VALIDATE_ONLY='^w'
 bad = 0
 for name, f, pairs in muts:
     if only and not re.search(only, name):
